@@ -106,24 +106,44 @@ def make_reject(rng, kind, k):
         return "2024/12/28 use\n    Assets:Cash    1 %s\n    Equity:Opening\n" % nm
 
     texts = [e.text() for e in entries]
+
+    def decl(name, bad_alias=None):
+        """the declaration that must be rejected: the conflicting alias line (if any) may stand first, in the middle or
+        last among other, harmless sub-directives — the whole declaration is rejected wherever the conflict is"""
+        fresh = ["Zz:Fresh %d %d" % (k, j) if not com else "ZZ%s%s" % ("abcdefghij"[k % 10], "klmnop"[j]) for j in range(3)]
+        lines = []
+        if rng.random() < 0.5:
+            lines.append("    alias %s" % fresh[0])
+        if rng.random() < 0.3:
+            lines.append("    note n")
+        if bad_alias is not None:
+            lines.append("    alias %s" % bad_alias)
+        if rng.random() < 0.6:
+            lines.append("    alias %s" % fresh[1])
+        if rng.random() < 0.3:
+            lines.append("    ; c")
+        if rng.random() < 0.3:
+            lines.append("    alias %s" % fresh[2])
+        return "%s %s\n%s" % (word, name, "".join(l + "\n" for l in lines))
+
     if base == "alias-is-declared-canonical":
         texts.append("%s %s\n" % (word, y))
-        texts.append("%s %s\n    alias %s\n" % (word, x, y))
+        texts.append(decl(x, y))
         inner = "AlreadyCanonical"
     elif base == "alias-used-before":
         texts.append(txn_with_commodity(a) if com else txn_with_account(a))
-        texts.append("%s %s\n    note n\n    alias %s\n" % (word, x, a))
+        texts.append(decl(x, a))
         inner = "AlreadyCanonical"
     elif base == "canonical-is-alias":
         texts.append("%s %s\n    alias %s\n" % (word, x, a))
-        texts.append("%s %s\n" % (word, a))
+        texts.append(decl(a))
         inner = "AlreadyAlias"
     elif base == "alias-of-two":
         texts.append("%s %s\n    alias %s\n" % (word, x, a))
-        texts.append("%s %s\n    alias %s\n" % (word, y, a))
+        texts.append(decl(y, a))
         inner = "AliasConflict"
     else:  # alias-is-self
-        texts.append("%s %s\n    alias %s\n" % (word, x, x))
+        texts.append(decl(x, x))
         inner = "AlreadyCanonical"
     idx = len(texts) - 1
     if rng.random() < 0.5:
